@@ -125,6 +125,31 @@ func runC08(cx *Ctx, r *Report) {
 		}
 	}
 	r.requireCount("reschedule-condition", 1)
+	// who may declare a batch completed: only the batch-completion function and the
+	// automatic pause; anything else (e.g. a kill) that sets BatchState := COMPLETED makes
+	// the expiry handler skip the slash/refund of the batch's unanswered requests
+	{
+		n := 0
+		kc := keyCounter{}
+		for _, name := range sortedKeys(per) {
+			for _, x := range per[name] {
+				if x.ev.Kind != "assign:RequestContext.BatchState" || x.ev.Args[0].LooseString() != "1" {
+					continue
+				}
+				n++
+				okW := false
+				for f := x.ev.Fr; f != nil; f = f.Parent {
+					if nm := f.Fn.Name(); (nm == "CompleteBatch" || nm == "OnRequestContextPaused") && moduleOf(funcPkgPath(f.Fn)) == "service" {
+						okW = true
+					}
+				}
+				r.check(okW, "batch-completed-writers", kc.next(name), x.ev.Pos(cx), "BatchState := COMPLETED is written by the batch-completion function or the automatic pause", "BatchState is set to COMPLETED in "+shortFn(x.ev.Fr.Fn)+" (reached from "+name+"), outside batch completion and automatic pause: the expired-batch handler then skips the slash and refund of the batch's unanswered requests, which end with neither outcome")
+			}
+		}
+		if n < 3 {
+			r.toolErr("only %d BatchState := COMPLETED sites found (≥3 confirmed)", n)
+		}
+	}
 	{
 		walks := map[string]*c13Walk{}
 		cx.singleEntryRule(r, func(e Entry) *c13Walk {
